@@ -40,7 +40,7 @@ func (r *Rng) header(p *profile.Profile) {
 	p.Period = []int64{0, 0, 1, 7, 10000000, math.MaxInt64}[r.Intn(6)] // a sampling period is not negative
 	p.Comments = nil
 	for i, n := 0, r.Intn(4); i < n; i++ {
-		p.Comments = append(p.Comments, r.Pick([]string{"c1", "c2", "hello world", "", "c1"}))
+		p.Comments = append(p.Comments, r.Pick(c03Comments))
 	}
 	p.DocURL = r.Pick([]string{"", "", "http://x/y", "http://z"})
 	p.DefaultSampleType = ""
@@ -734,6 +734,44 @@ func genDigitSoup(r *Rng) c03Gen {
 	return c03Gen{kind: "digit-soup", profiles: []*profile.Profile{p, q}}
 }
 
+// comments: exact duplicates next to variants of ONE text that differ only in surrounding
+// whitespace, case, or an inner blank, and empty vs blank-only — de-duplication must be by exact
+// byte equality, whatever normalisation a set key might apply.
+var c03Comments = []string{"host: a", "host: a", "host: a\n", " host: a", "host: a ", "\thost: a", "host: a\r\n", "host:  a", "Host: a", "host: a\x00",
+	"", " ", "\n", "\t", "  ", "section", "  section", "c1", "c1", "c2"}
+
+// c03CommentPairCases: every unordered pair of distinct comment variants, within one profile
+// (both orders) and across two inputs (both orders).
+func c03CommentPairCases() []c03Gen {
+	var uniq []string
+	seen := map[string]bool{}
+	for _, c := range c03Comments {
+		if !seen[c] {
+			seen[c] = true
+			uniq = append(uniq, c)
+		}
+	}
+	var out []c03Gen
+	for i := 0; i < len(uniq); i++ {
+		for j := i + 1; j < len(uniq); j++ {
+			for o := 0; o < 2; o++ {
+				x, y := uniq[i], uniq[j]
+				if o == 1 {
+					x, y = y, x
+				}
+				one := ndBase()
+				one.Comments = []string{x, y, x}
+				out = append(out, c03Gen{kind: "comments/same-profile", tag: fmt.Sprintf("%q|%q", x, y), profiles: []*profile.Profile{one}})
+				a, b := ndBase(), ndBase()
+				a.Comments, b.Comments = []string{x}, []string{y, x}
+				b.Sample[0].Value = []int64{10, 20}
+				out = append(out, c03Gen{kind: "comments/cross-inputs", tag: fmt.Sprintf("%q|%q", x, y), profiles: []*profile.Profile{a, b}})
+			}
+		}
+	}
+	return out
+}
+
 // ---- header grid ----
 
 func genHeaderGrid(r *Rng, i int) c03Gen {
@@ -750,7 +788,7 @@ func genHeaderGrid(r *Rng, i int) c03Gen {
 		p.Period = pds[j%len(pds)]
 		p.DurationNanos = []int64{0, 1, 10, math.MaxInt64, -4}[r.Intn(5)]
 		for a, n := 0, r.Intn(4); a < n; a++ {
-			p.Comments = append(p.Comments, r.Pick([]string{"a", "b", "c", ""}))
+			p.Comments = append(p.Comments, r.Pick(c03Comments))
 		}
 		p.DefaultSampleType = r.Pick([]string{"", "", "samples", "cpu"})
 		p.DocURL = r.Pick([]string{"", "", "http://a", "http://b"})
